@@ -8,7 +8,7 @@ def run(tier):
     c.mc("TimeFmt", "MC_TimeFmt", workers=8, timeout=900)
     nsh = 8 if tier == "quick" else 16
     traces = []
-    for k, sd in enumerate(vlib.seeds(tier, 8)):
+    for k, sd in enumerate(vlib.seeds(tier, 20)):
         traces += c.drive(exe, [["@OUT", tier, sd, i, nsh] for i in range(nsh)], tag="time%d" % k)
     bads = c.validate("TimeFmt", "Trace_TimeFmt", traces, timeout=3000, xmx="6g")
     c.judge(bads)
